@@ -35,6 +35,9 @@ def funcs : List (String × String) := [
   ("internal/auth/sasl.go:type ContextData", "a22731aafc810e64"),
   ("internal/auth/sasl.go:type FailingSASLServ", "8c954f3764e69b1c"),
   ("internal/auth/sasl.go:type SASLAuth", "edf129f67ae0716b"),
+  ("internal/authz/normalization.go:NormalizeAuto", "469169839aed8fca"),
+  ("internal/authz/normalization.go:NormalizeNoop", "578c5e58653bd003"),
+  ("internal/authz/normalization.go:type NormalizeFunc", "4472b469f6958871"),
   ("internal/endpoint/smtp/session.go:Session.Auth", "824172581d721d4f"),
   ("internal/endpoint/smtp/session.go:Session.AuthPlain", "ee043220ec359376"),
   ("internal/endpoint/smtp/session.go:Session.Mail", "23b0bf968b797f19")
